@@ -1,7 +1,1652 @@
-//! C41: not implemented yet.
+//! C41 calendar: DATE/TIME/TIMESTAMP conversions agree with an independent proleptic Gregorian
+//! calendar; all converters agree with each other; invalid field combinations are rejected.
+//!
+//! Converters reached (all through public API, see `conv_*`):
+//!   literal   turdb::parsing::{parse_date, parse_time, parse_timestamp}        (literal.rs)
+//!   default   ConstraintValidator::apply_defaults on a TableDef with DEFAULTs  (constraints/mod.rs)
+//!   predicate CompiledPredicate over `CAST('..' AS DATE|TIME|TIMESTAMP)`       (sql/predicate.rs)
+//!   function  sql::functions::datetime::eval_datetime_function                 (datetime.rs)
+//!   sql       the same again through `Database::execute/query` (convert.rs wiring)
+//!   render    cli::table (feature `cli`, not enabled in the harness) -> only through the turdb
+//!             CLI binary if one is found (`TV_TURDB_CLI`), otherwise reported as not checked.
+use crate::report::{catch, panic_site, Ctx};
+use crate::rng::Rng;
 use crate::Args;
+use serde_json::{json, Value as J};
+use std::borrow::Cow;
+use std::collections::{BTreeMap, HashSet};
+use turdb::constraints::ConstraintValidator;
+use turdb::records::types::DataType as RecType;
+use turdb::schema::table::{ColumnDef, TableDef};
+use turdb::sql::ast::{DataType as AstType, Expr, Literal};
+use turdb::sql::executor::ExecutorRow;
+use turdb::sql::functions::datetime::eval_datetime_function;
+use turdb::sql::predicate::CompiledPredicate;
+use turdb::types::Value;
+use turdb::{Database, OwnedValue};
 
-pub fn run(_a: &Args) -> i32 {
-    println!("INCONCLUSIVE property=C41 reason=check not implemented yet");
-    2
+// ------------------------------------------------------------------------------------------
+// Independent calendar (proleptic Gregorian). Day 0 = 1970-01-01.
+// ------------------------------------------------------------------------------------------
+pub mod cal {
+    pub const MIN_DAY: i64 = -719_162; // 0001-01-01
+    pub const MAX_DAY: i64 = 2_932_896; // 9999-12-31
+    pub const TOTAL_DAYS: u64 = 3_652_059;
+
+    pub fn is_leap(y: i64) -> bool {
+        if y % 400 == 0 {
+            true
+        } else if y % 100 == 0 {
+            false
+        } else {
+            y % 4 == 0
+        }
+    }
+    pub fn dim(y: i64, m: u32) -> u32 {
+        const T: [u32; 12] = [31, 28, 31, 30, 31, 30, 31, 31, 30, 31, 30, 31];
+        if m == 2 && is_leap(y) {
+            29
+        } else {
+            T[(m - 1) as usize]
+        }
+    }
+    pub fn valid(y: i64, m: u32, d: u32) -> bool {
+        (1..=9999).contains(&y) && (1..=12).contains(&m) && d >= 1 && d <= dim(y, m)
+    }
+    /// days-from-civil (era based, 400-year cycles of 146097 days, year starting in March)
+    pub fn days_from_civil(y: i64, m: u32, d: u32) -> i64 {
+        let y = if m <= 2 { y - 1 } else { y };
+        let era = y.div_euclid(400);
+        let yoe = y.rem_euclid(400);
+        let mp = (m as i64 + 9) % 12;
+        let doy = (153 * mp + 2) / 5 + d as i64 - 1;
+        let doe = yoe * 365 + yoe / 4 - yoe / 100 + doy;
+        era * 146_097 + doe - 719_468
+    }
+    pub fn civil_from_days(z: i64) -> (i64, u32, u32) {
+        let z = z + 719_468;
+        let era = z.div_euclid(146_097);
+        let doe = z.rem_euclid(146_097);
+        let yoe = (doe - doe / 1460 + doe / 36_524 - doe / 146_096) / 365;
+        let y = yoe + era * 400;
+        let doy = doe - (365 * yoe + yoe / 4 - yoe / 100);
+        let mp = (5 * doy + 2) / 153;
+        let d = (doy - (153 * mp + 2) / 5 + 1) as u32;
+        let m = if mp < 10 { mp + 3 } else { mp - 9 } as u32;
+        (if m <= 2 { y + 1 } else { y }, m, d)
+    }
+    /// 0 = Sunday .. 6 = Saturday (1970-01-01 was a Thursday)
+    pub fn weekday(z: i64) -> u32 {
+        (z + 4).rem_euclid(7) as u32
+    }
+    pub fn day_of_year(y: i64, m: u32, d: u32) -> u32 {
+        (1..m).map(|k| dim(y, k)).sum::<u32>() + d
+    }
+    pub const DAY_NAMES: [&str; 7] = ["Sunday", "Monday", "Tuesday", "Wednesday", "Thursday", "Friday", "Saturday"];
+    pub const MONTH_NAMES: [&str; 12] =
+        ["January", "February", "March", "April", "May", "June", "July", "August", "September", "October", "November", "December"];
+
+    /// Cross-check of the closed formulas against a day-by-day counter that only uses the leap
+    /// rule and the month-length table, plus fixed anchors taken from published tables.
+    pub fn selfcheck(y_lo: i64, y_hi: i64) -> Result<u64, String> {
+        let anchors: [((i64, u32, u32), i64, u32); 8] = [
+            ((1, 1, 1), -719_162, 1),      // Monday
+            ((1582, 10, 15), -141_427, 5), // Friday (first Gregorian day)
+            ((1600, 2, 29), -135_081, 2),  // Tuesday
+            ((1970, 1, 1), 0, 4),          // Thursday
+            ((2000, 1, 1), 10_957, 6),     // Saturday
+            ((2000, 3, 1), 11_017, 3),     // Wednesday
+            ((2024, 2, 29), 19_782, 4),    // Thursday
+            ((9999, 12, 31), 2_932_896, 5), // Friday
+        ];
+        for ((y, m, d), z, wd) in anchors {
+            if days_from_civil(y, m, d) != z || civil_from_days(z) != (y, m, d) || weekday(z) != wd {
+                return Err(format!("anchor {:04}-{:02}-{:02} fails: {} {:?} {}", y, m, d, days_from_civil(y, m, d), civil_from_days(z), weekday(z)));
+            }
+        }
+        let mut counter = days_from_civil(y_lo, 1, 1);
+        if y_lo == 1 && counter != MIN_DAY {
+            return Err("first day".into());
+        }
+        let mut n = 0u64;
+        let mut wd = weekday(counter);
+        for y in y_lo..=y_hi {
+            let mut doy = 0;
+            for m in 1..=12u32 {
+                for d in 1..=dim(y, m) {
+                    doy += 1;
+                    if days_from_civil(y, m, d) != counter || civil_from_days(counter) != (y, m, d) || weekday(counter) != wd || day_of_year(y, m, d) != doy {
+                        return Err(format!("mismatch at {:04}-{:02}-{:02} counter {}", y, m, d, counter));
+                    }
+                    counter += 1;
+                    wd = (wd + 1) % 7;
+                    n += 1;
+                }
+            }
+            if doy != if is_leap(y) { 366 } else { 365 } {
+                return Err(format!("year length {}", y));
+            }
+        }
+        if y_lo == 1 && y_hi == 9999 && (n != TOTAL_DAYS || counter - 1 != MAX_DAY) {
+            return Err(format!("total {} last {}", n, counter - 1));
+        }
+        Ok(n)
+    }
+}
+
+fn ymd_text(y: i64, m: u32, d: u32) -> String {
+    format!("{:04}-{:02}-{:02}", y, m, d)
+}
+
+/// lenient independent reader of "Y-M-D" (used on function / renderer output, never on input)
+fn read_ymd(s: &str) -> Option<(i64, u32, u32)> {
+    let mut it = s.trim().split('-');
+    let y = it.next()?.parse().ok()?;
+    let m = it.next()?.parse().ok()?;
+    let d = it.next()?.parse().ok()?;
+    if it.next().is_some() {
+        return None;
+    }
+    Some((y, m, d))
+}
+
+/// independent reader of "H:M:S[.frac]" -> microseconds of day
+fn read_hms_micros(s: &str) -> Option<i64> {
+    let s = s.trim();
+    let (hms, frac) = match s.find('.') {
+        Some(i) => (&s[..i], &s[i + 1..]),
+        None => (s, ""),
+    };
+    let mut it = hms.split(':');
+    let h: i64 = it.next()?.parse().ok()?;
+    let m: i64 = it.next()?.parse().ok()?;
+    let sec: i64 = it.next()?.parse().ok()?;
+    if it.next().is_some() || h > 23 || m > 59 || sec > 59 || h < 0 || m < 0 || sec < 0 {
+        return None;
+    }
+    if frac.len() > 9 || !frac.bytes().all(|b| b.is_ascii_digit()) {
+        return None;
+    }
+    let mut f: i64 = 0;
+    for (i, b) in frac.bytes().enumerate() {
+        if i < 6 {
+            f = f * 10 + (b - b'0') as i64;
+        } else if b != b'0' {
+            return None; // finer than a microsecond: not something the renderer may invent
+        }
+    }
+    for _ in frac.len().min(6)..6 {
+        f *= 10;
+    }
+    Some((h * 3600 + m * 60 + sec) * 1_000_000 + f)
+}
+
+/// independent reader of "Y-M-D[ T]H:M:S[.frac]" -> microseconds since 1970-01-01T00:00:00
+fn read_ts_micros(s: &str) -> Option<i64> {
+    let s = s.trim();
+    let i = s.find(|c| c == ' ' || c == 'T')?;
+    let (y, m, d) = read_ymd(&s[..i])?;
+    if !cal::valid(y, m, d) {
+        return None;
+    }
+    let t = read_hms_micros(&s[i + 1..])?;
+    Some(cal::days_from_civil(y, m, d) * 86_400_000_000 + t)
+}
+
+// ------------------------------------------------------------------------------------------
+// Per-thread accumulator (merged into Ctx in a fixed order, so runs are deterministic)
+// ------------------------------------------------------------------------------------------
+const MAX_DETAILS_PER_SIG: u64 = 12;
+
+#[derive(Default)]
+struct Acc {
+    evals: u64,
+    counters: BTreeMap<String, u64>,
+    nontrivial: HashSet<u64>,
+    sig_counts: BTreeMap<String, u64>,
+    viols: Vec<(String, String, J)>,
+    samples: Vec<J>,
+}
+
+impl Acc {
+    fn count(&mut self, k: &str, n: u64) {
+        *self.counters.entry(k.to_string()).or_insert(0) += n;
+    }
+    fn viol(&mut self, assertion: &str, sig: &str, detail: impl FnOnce() -> J) {
+        let c = self.sig_counts.entry(sig.to_string()).or_insert(0);
+        *c += 1;
+        if *c <= MAX_DETAILS_PER_SIG {
+            self.viols.push((assertion.to_string(), sig.to_string(), detail()));
+        }
+    }
+    fn merge(&mut self, o: Acc) {
+        self.evals += o.evals;
+        for (k, v) in o.counters {
+            *self.counters.entry(k).or_insert(0) += v;
+        }
+        self.nontrivial.extend(o.nontrivial);
+        for (k, v) in o.sig_counts {
+            *self.sig_counts.entry(k).or_insert(0) += v;
+        }
+        self.viols.extend(o.viols);
+        for s in o.samples {
+            if self.samples.len() < 8 {
+                self.samples.push(s);
+            }
+        }
+    }
+    fn flush(self, ctx: &mut Ctx) {
+        ctx.evals(self.evals);
+        for (k, v) in &self.counters {
+            ctx.count(k, *v);
+        }
+        for h in &self.nontrivial {
+            ctx.nontrivial(*h);
+        }
+        let mut per_sig: BTreeMap<String, u64> = BTreeMap::new();
+        for (a, s, d) in self.viols {
+            let c = per_sig.entry(s.clone()).or_insert(0);
+            *c += 1;
+            if *c <= MAX_DETAILS_PER_SIG {
+                ctx.violation(&a, &s, d);
+            }
+        }
+        for (s, n) in &self.sig_counts {
+            ctx.count(&format!("failed[{}]", s), *n);
+        }
+        for s in self.samples {
+            ctx.sample(s);
+        }
+    }
+}
+
+// ------------------------------------------------------------------------------------------
+// Converters. `Out` is what a converter said about one text.
+// ------------------------------------------------------------------------------------------
+#[derive(Debug, Clone, PartialEq)]
+enum Out {
+    Val(i64),
+    Rejected,
+    Other(String),
+    Panic(String),
+}
+
+/// The single place that knows how each *private* calendar helper is reached.
+/// Today every helper is reached indirectly through a public function that does nothing but
+/// field-splitting around it; with the `verif_*` wrappers listed in the report the bodies below
+/// can call the helpers directly (cfg `kahflane_turdb_verif_cal`).
+mod private_helpers {
+    /// literal.rs `date_to_days_since_epoch` (via `parse_date`), constraints `days_from_ymd`
+    /// (via `apply_defaults`), datetime.rs `date_to_days` (via TO_DAYS) / `days_to_date` (via
+    /// FROM_DAYS): see `conv_date_*` below. Direct calls, once wrappers exist:
+    #[cfg(kahflane_turdb_verif_cal)]
+    pub fn direct(which: &str, y: i64, m: u32, d: u32) -> Option<i64> {
+        match which {
+            "literal" => Some(turdb::parsing::verif_date_to_days_since_epoch(y as i32, m, d) as i64),
+            "default" => Some(turdb::constraints::verif_days_from_ymd(y as i32, m, d) as i64),
+            "function" => Some(turdb::sql::functions::datetime::verif_date_to_days(y, m, d)),
+            _ => None,
+        }
+    }
+    #[cfg(not(kahflane_turdb_verif_cal))]
+    pub fn direct(_which: &str, _y: i64, _m: u32, _d: u32) -> Option<i64> {
+        None
+    }
+}
+
+fn conv_date_literal(text: &str) -> Out {
+    match catch(|| turdb::parsing::parse_date(text)) {
+        Ok(Ok(OwnedValue::Date(n))) => Out::Val(n as i64),
+        Ok(Ok(o)) => Out::Other(format!("{:?}", o)),
+        Ok(Err(_)) => Out::Rejected,
+        Err(p) => Out::Panic(p),
+    }
+}
+fn conv_time_literal(text: &str) -> Out {
+    match catch(|| turdb::parsing::parse_time(text)) {
+        Ok(Ok(OwnedValue::Time(n))) => Out::Val(n),
+        Ok(Ok(o)) => Out::Other(format!("{:?}", o)),
+        Ok(Err(_)) => Out::Rejected,
+        Err(p) => Out::Panic(p),
+    }
+}
+fn conv_ts_literal(text: &str) -> Out {
+    match catch(|| turdb::parsing::parse_timestamp(text)) {
+        Ok(Ok(OwnedValue::Timestamp(n))) => Out::Val(n),
+        Ok(Ok(o)) => Out::Other(format!("{:?}", o)),
+        Ok(Err(_)) => Out::Rejected,
+        Err(p) => Out::Panic(p),
+    }
+}
+
+/// DEFAULT parser: one table whose columns carry the texts as DEFAULT, one apply_defaults call.
+fn conv_defaults(texts: &[String], ty: RecType) -> Vec<Out> {
+    let r = catch(|| {
+        let cols: Vec<ColumnDef> = texts.iter().enumerate().map(|(i, t)| ColumnDef::new(format!("c{}", i), ty).with_default(t.clone())).collect();
+        let table = TableDef::new(1, "c41", cols);
+        let mut vals: Vec<OwnedValue> = Vec::new();
+        ConstraintValidator::new(&table).apply_defaults(&mut vals);
+        vals
+    });
+    match r {
+        Ok(vals) => (0..texts.len())
+            .map(|i| match vals.get(i) {
+                Some(OwnedValue::Date(n)) if ty == RecType::Date => Out::Val(*n as i64),
+                Some(OwnedValue::Time(n)) if ty == RecType::Time => Out::Val(*n),
+                Some(OwnedValue::Timestamp(n)) if ty == RecType::Timestamp => Out::Val(*n),
+                Some(OwnedValue::Null) | None => Out::Rejected,
+                Some(o) => Out::Other(format!("{:?}", o)),
+            })
+            .collect(),
+        // a panic on the batch: redo one by one so it is attributed to the right text
+        Err(p) => {
+            if texts.len() == 1 {
+                vec![Out::Panic(p)]
+            } else {
+                texts.iter().map(|t| conv_defaults(std::slice::from_ref(t), ty).pop().unwrap()).collect()
+            }
+        }
+    }
+}
+
+/// predicate.rs: evaluate `CAST('<text>' AS <ty>)` with the compiled-predicate evaluator
+fn conv_predicate(text: &str, ty: AstType<'static>) -> Out {
+    let is_ts = matches!(ty, AstType::Timestamp | AstType::TimestampTz);
+    let r = catch(|| {
+        let lit = Expr::Literal(Literal::String(text));
+        let cast = Expr::Cast { expr: &lit, data_type: ty };
+        let p = CompiledPredicate::new(&cast, vec![]);
+        let vals: [Value; 0] = [];
+        let row = ExecutorRow::new(&vals);
+        match p.evaluate_to_value(&row) {
+            Some(Value::Int(n)) if !is_ts => Out::Val(n),
+            Some(Value::TimestampTz { micros, offset_secs: 0 }) if is_ts => Out::Val(micros),
+            None | Some(Value::Null) => Out::Rejected,
+            Some(o) => Out::Other(format!("{:?}", o)),
+        }
+    });
+    match r {
+        Ok(o) => o,
+        Err(p) => Out::Panic(p),
+    }
+}
+
+#[derive(Debug, Clone, PartialEq)]
+enum FOut {
+    Int(i64),
+    Text(String),
+    Null,
+    Other(String),
+    Panic(String),
+}
+
+fn fcall(name: &str, args: &[Option<Value<'_>>]) -> FOut {
+    match catch(|| match eval_datetime_function(name, args) {
+        Some(Value::Int(n)) => FOut::Int(n),
+        Some(Value::Text(s)) => FOut::Text(s.into_owned()),
+        Some(Value::Null) | None => FOut::Null,
+        Some(o) => FOut::Other(format!("{:?}", o)),
+    }) {
+        Ok(o) => o,
+        Err(p) => FOut::Panic(p),
+    }
+}
+fn tx(s: &str) -> Option<Value<'_>> {
+    Some(Value::Text(Cow::Borrowed(s)))
+}
+fn iv<'a>(n: i64) -> Option<Value<'a>> {
+    Some(Value::Int(n))
+}
+
+/// what the converters use as day number of 1970-01-01 (measured, not assumed)
+#[derive(Debug, Clone, Copy)]
+struct Epochs {
+    literal: i64,
+    default: i64,
+    predicate: i64,
+    to_days: i64,
+    /// DAYOFWEEK('2000-01-01') (a Saturday), WEEKDAY(same)
+    dow_sat: i64,
+    wd_sat: i64,
+}
+
+fn measure_epochs() -> Result<Epochs, String> {
+    let a = "1970-01-01";
+    let get = |o: Out, who: &str| match o {
+        Out::Val(v) => Ok(v),
+        o => Err(format!("{} cannot convert the anchor 1970-01-01: {:?}", who, o)),
+    };
+    let fget = |o: FOut, who: &str| match o {
+        FOut::Int(v) => Ok(v),
+        o => Err(format!("{} on the anchor date: {:?}", who, o)),
+    };
+    Ok(Epochs {
+        literal: get(conv_date_literal(a), "parse_date")?,
+        default: get(conv_defaults(&[a.to_string()], RecType::Date).pop().unwrap(), "DEFAULT parser")?,
+        predicate: get(conv_predicate(a, AstType::Date), "CAST AS DATE")?,
+        to_days: fget(fcall("TO_DAYS", &[tx(a)]), "TO_DAYS")?,
+        dow_sat: fget(fcall("DAYOFWEEK", &[tx("2000-01-01")]), "DAYOFWEEK")?,
+        wd_sat: fget(fcall("WEEKDAY", &[tx("2000-01-01")]), "WEEKDAY")?,
+    })
+}
+
+fn short(s: &str) -> String {
+    s.chars().take(160).collect()
+}
+
+/// judge one converter on one date text
+fn judge_date(acc: &mut Acc, who: &str, text: &str, valid: bool, expect: i64, out: &Out, reject_required: bool) {
+    match out {
+        Out::Val(v) => {
+            if valid {
+                if *v != expect {
+                    acc.viol("date_value", &format!("C41/date_value/{}", who), || json!({"converter": who, "text": text, "got": v, "expected": expect}));
+                }
+            } else if reject_required {
+                acc.viol("invalid_rejected", &format!("C41/invalid_rejected/{} accepts invalid date", who), || {
+                    let (gy, gm, gd) = cal::civil_from_days(*v);
+                    json!({"converter": who, "text": text, "got": v, "got_as_date": ymd_text(gy, gm, gd)})
+                });
+            }
+        }
+        Out::Rejected => {
+            if valid {
+                acc.viol("valid_accepted", &format!("C41/valid_rejected/{}", who), || json!({"converter": who, "text": text}));
+            }
+        }
+        Out::Other(o) => {
+            if valid || reject_required {
+                acc.viol("date_value", &format!("C41/wrong_type/{}", who), || json!({"converter": who, "text": text, "got": short(o)}));
+            }
+        }
+        Out::Panic(p) => {
+            acc.viol("no_panic", &format!("C41/panic/{}@{}", who, panic_site(p)), || json!({"converter": who, "text": text, "panic": short(p)}));
+        }
+    }
+}
+
+// ------------------------------------------------------------------------------------------
+// Part 1 + 3: every (y, m, d) with m in 0..=13, d in 0..=32 of one year through every converter
+// ------------------------------------------------------------------------------------------
+#[derive(Clone, Copy)]
+struct DateOpts {
+    literal: bool,
+    functions_full: bool,
+}
+
+fn expect_fn_int(acc: &mut Acc, f: &str, text: &str, got: FOut, expected: i64) {
+    match got {
+        FOut::Int(v) if v == expected => {}
+        FOut::Panic(p) => acc.viol("no_panic", &format!("C41/panic/{}@{}", f, panic_site(&p)), || json!({"function": f, "arg": text, "panic": short(&p)})),
+        o => acc.viol("function_value", &format!("C41/function_value/{}", f), || json!({"function": f, "arg": text, "got": format!("{:?}", o), "expected": expected})),
+    }
+}
+fn expect_fn_date(acc: &mut Acc, f: &str, arg: J, got: FOut, expected: (i64, u32, u32)) {
+    match &got {
+        FOut::Text(s) if read_ymd(s) == Some(expected) => {}
+        FOut::Panic(p) => acc.viol("no_panic", &format!("C41/panic/{}@{}", f, panic_site(p)), || json!({"function": f, "arg": arg, "panic": short(p)})),
+        o => acc.viol("function_value", &format!("C41/function_value/{}", f), || json!({"function": f, "arg": arg, "got": format!("{:?}", o), "expected": ymd_text(expected.0, expected.1, expected.2)})),
+    }
+}
+fn expect_fn_text(acc: &mut Acc, f: &str, text: &str, got: FOut, expected: &str) {
+    match &got {
+        FOut::Text(s) if s == expected => {}
+        FOut::Panic(p) => acc.viol("no_panic", &format!("C41/panic/{}@{}", f, panic_site(p)), || json!({"function": f, "arg": text, "panic": short(p)})),
+        o => acc.viol("function_value", &format!("C41/function_value/{}", f), || json!({"function": f, "arg": text, "got": format!("{:?}", o), "expected": expected})),
+    }
+}
+
+fn in_range_day(z: i64) -> bool {
+    (cal::MIN_DAY..=cal::MAX_DAY).contains(&z)
+}
+
+fn date_functions(acc: &mut Acc, ep: &Epochs, rng: &mut Rng, y: i64, m: u32, d: u32, z: i64, text: &str, full: bool) {
+    // day number and its inverse
+    expect_fn_int(acc, "TO_DAYS", text, fcall("TO_DAYS", &[tx(text)]), z + ep.to_days);
+    expect_fn_date(acc, "FROM_DAYS", json!(z + ep.to_days), fcall("FROM_DAYS", &[iv(z + ep.to_days)]), (y, m, d));
+    // weekday: README "Day of week (1-7)"; which day is 1 is taken from the anchor, the cycle from the calendar
+    let wd = cal::weekday(z) as i64;
+    let dow = 1 + (wd - 6 + (ep.dow_sat - 1)).rem_euclid(7);
+    expect_fn_int(acc, "DAYOFWEEK", text, fcall("DAYOFWEEK", &[tx(text)]), dow);
+    expect_fn_int(acc, "DAYOFYEAR", text, fcall("DAYOFYEAR", &[tx(text)]), cal::day_of_year(y, m, d) as i64);
+    // successor / predecessor
+    if in_range_day(z + 1) {
+        expect_fn_date(acc, "DATE_ADD", json!([text, 1]), fcall("DATE_ADD", &[tx(text), iv(1)]), cal::civil_from_days(z + 1));
+    }
+    if !full {
+        return;
+    }
+    if in_range_day(z - 1) {
+        expect_fn_date(acc, "DATE_SUB", json!([text, 1]), fcall("DATE_SUB", &[tx(text), iv(1)]), cal::civil_from_days(z - 1));
+    }
+    let wdm = (wd - 6 + ep.wd_sat).rem_euclid(7);
+    expect_fn_int(acc, "WEEKDAY", text, fcall("WEEKDAY", &[tx(text)]), wdm);
+    expect_fn_text(acc, "DAYNAME", text, fcall("DAYNAME", &[tx(text)]), cal::DAY_NAMES[wd as usize]);
+    expect_fn_text(acc, "MONTHNAME", text, fcall("MONTHNAME", &[tx(text)]), cal::MONTH_NAMES[(m - 1) as usize]);
+    expect_fn_date(acc, "LAST_DAY", json!(text), fcall("LAST_DAY", &[tx(text)]), (y, m, cal::dim(y, m)));
+    expect_fn_int(acc, "YEAR", text, fcall("YEAR", &[tx(text)]), y);
+    expect_fn_int(acc, "MONTH", text, fcall("MONTH", &[tx(text)]), m as i64);
+    expect_fn_int(acc, "DAY", text, fcall("DAY", &[tx(text)]), d as i64);
+    expect_fn_int(acc, "DAYOFMONTH", text, fcall("DAYOFMONTH", &[tx(text)]), d as i64);
+    expect_fn_int(acc, "QUARTER", text, fcall("QUARTER", &[tx(text)]), ((m - 1) / 3 + 1) as i64);
+    expect_fn_date(acc, "MAKEDATE", json!([y, cal::day_of_year(y, m, d)]), fcall("MAKEDATE", &[iv(y), iv(cal::day_of_year(y, m, d) as i64)]), (y, m, d));
+    // random jump and difference to a random other date of the range
+    let z2 = rng.range(cal::MIN_DAY, cal::MAX_DAY);
+    let (y2, m2, d2) = cal::civil_from_days(z2);
+    let t2 = ymd_text(y2, m2, d2);
+    expect_fn_int(acc, "DATEDIFF", text, fcall("DATEDIFF", &[tx(text), tx(&t2)]), z - z2);
+    let k = z2 - z;
+    expect_fn_date(acc, "ADDDATE", json!([text, k]), fcall("ADDDATE", &[tx(text), iv(k)]), (y2, m2, d2));
+    expect_fn_date(acc, "SUBDATE", json!([text, -k]), fcall("SUBDATE", &[tx(text), iv(-k)]), (y2, m2, d2));
+    // week numbers: numbering scheme is not documented; only "is a week number"
+    for f in ["WEEK", "WEEKOFYEAR"] {
+        match fcall(f, &[tx(text)]) {
+            FOut::Int(w) if (0..=53).contains(&w) => {}
+            FOut::Panic(p) => acc.viol("no_panic", &format!("C41/panic/{}@{}", f, panic_site(&p)), || json!({"function": f, "arg": text, "panic": short(&p)})),
+            o => acc.viol("function_value", &format!("C41/function_value/{} outside 0..=53", f), || json!({"function": f, "arg": text, "got": format!("{:?}", o)})),
+        }
+    }
+}
+
+fn date_year(acc: &mut Acc, ep: &Epochs, rng: &mut Rng, y: i64, o: DateOpts) {
+    let mut texts: Vec<String> = Vec::with_capacity(14 * 33);
+    let mut meta: Vec<(u32, u32, bool, i64)> = Vec::with_capacity(14 * 33);
+    for m in 0..=13u32 {
+        for d in 0..=32u32 {
+            let valid = cal::valid(y, m, d);
+            let z = if valid { cal::days_from_civil(y, m, d) } else { 0 };
+            texts.push(ymd_text(y, m, d));
+            meta.push((m, d, valid, z));
+        }
+    }
+    let defaults = conv_defaults(&texts, RecType::Date);
+    for (i, text) in texts.iter().enumerate() {
+        let (m, d, valid, z) = meta[i];
+        acc.evals += 1;
+        // literal parser (O(|year - 1970|) per call)
+        if o.literal {
+            let out = conv_date_literal(text);
+            judge_date(acc, "parse_date", text, valid, z + ep.literal, &out, true);
+            acc.count(if valid { "literal_valid_dates" } else { "literal_invalid_dates" }, 1);
+        }
+        judge_date(acc, "DEFAULT date parser", text, valid, z + ep.default, &defaults[i], true);
+        let pout = conv_predicate(text, AstType::Date);
+        judge_date(acc, "CAST AS DATE", text, valid, z + ep.predicate, &pout, true);
+        if let Some(v) = private_helpers::direct("literal", y, m, d) {
+            if valid && v != z + ep.literal {
+                acc.viol("date_value", "C41/date_value/date_to_days_since_epoch", || json!({"text": text, "got": v, "expected": z + ep.literal}));
+            }
+        }
+        if valid {
+            acc.count("valid_dates", 1);
+            date_functions(acc, ep, rng, y, m, d, z, text, o.functions_full);
+            acc.nontrivial.insert(((y.rem_euclid(400) as u64) << 16) | ((m as u64) << 8) | d as u64);
+        } else {
+            acc.count("invalid_dates", 1);
+            acc.nontrivial.insert((1u64 << 40) | ((cal::is_leap(y) as u64) << 16) | ((m as u64) << 8) | d as u64);
+        }
+    }
+}
+
+/// run `date_year` over `years` on `nthreads` threads; deterministic for a given seed
+fn date_pass(seed_rng: &mut Rng, ep: Epochs, years: Vec<(i64, DateOpts)>, nthreads: usize) -> Acc {
+    let jobs: Vec<(i64, DateOpts, u64)> = years.into_iter().map(|(y, o)| (y, o, seed_rng.next())).collect();
+    let nthreads = nthreads.max(1);
+    let jobs = std::sync::Arc::new(jobs);
+    let next = std::sync::Arc::new(std::sync::atomic::AtomicUsize::new(0));
+    let mut handles = vec![];
+    for _ in 0..nthreads {
+        let jobs = jobs.clone();
+        let next = next.clone();
+        handles.push(std::thread::spawn(move || {
+            let mut out: Vec<(usize, Acc)> = vec![];
+            loop {
+                // blocks of 16 years so the merge order does not depend on scheduling
+                let b = next.fetch_add(1, std::sync::atomic::Ordering::SeqCst);
+                let lo = b * 16;
+                if lo >= jobs.len() {
+                    break;
+                }
+                let mut acc = Acc::default();
+                for (y, o, s) in &jobs[lo..(lo + 16).min(jobs.len())] {
+                    let mut rng = Rng::new(*s);
+                    date_year(&mut acc, &ep, &mut rng, *y, *o);
+                }
+                out.push((b, acc));
+            }
+            out
+        }));
+    }
+    let mut parts: Vec<(usize, Acc)> = vec![];
+    for h in handles {
+        match h.join() {
+            Ok(v) => parts.extend(v),
+            Err(_) => {
+                let mut a = Acc::default();
+                a.viol("no_panic", "C41/harness/worker thread died", || json!({}));
+                parts.push((usize::MAX, a));
+            }
+        }
+    }
+    parts.sort_by_key(|p| p.0);
+    let mut total = Acc::default();
+    for (_, a) in parts {
+        total.merge(a);
+    }
+    total
+}
+
+// ------------------------------------------------------------------------------------------
+// Part 4: TIME and TIMESTAMP
+// ------------------------------------------------------------------------------------------
+/// `allowed`: acceptable values; `may_reject`: rejection is acceptable too
+fn judge_tval(acc: &mut Acc, kind: &str, who: &str, text: &str, allowed: &[i64], may_reject: bool, out: &Out) {
+    match out {
+        Out::Val(v) => {
+            if !allowed.contains(v) {
+                acc.viol(&format!("{}_value", kind), &format!("C41/{}_value/{}", kind, who), || json!({"converter": who, "text": text, "got": v, "expected_one_of": allowed}));
+            }
+        }
+        Out::Rejected => {
+            if !may_reject {
+                acc.viol("valid_accepted", &format!("C41/valid_rejected/{}", who), || json!({"converter": who, "text": text}));
+            }
+        }
+        Out::Other(o) => acc.viol(&format!("{}_value", kind), &format!("C41/wrong_type/{}", who), || json!({"converter": who, "text": text, "got": short(o)})),
+        Out::Panic(p) => acc.viol("no_panic", &format!("C41/panic/{}@{}", who, panic_site(p)), || json!({"converter": who, "text": text, "panic": short(p)})),
+    }
+}
+fn judge_invalid(acc: &mut Acc, kind: &str, class: &str, who: &str, text: &str, out: &Out) {
+    match out {
+        Out::Rejected => {}
+        Out::Val(v) => acc.viol("invalid_rejected", &format!("C41/invalid_rejected/{} accepts invalid {} ({})", who, kind, class), || json!({"converter": who, "text": text, "got": v})),
+        Out::Other(o) => acc.viol("invalid_rejected", &format!("C41/invalid_rejected/{} accepts invalid {} ({})", who, kind, class), || json!({"converter": who, "text": text, "got": short(o)})),
+        Out::Panic(p) => acc.viol("no_panic", &format!("C41/panic/{}@{}", who, panic_site(p)), || json!({"converter": who, "text": text, "panic": short(p)})),
+    }
+}
+
+/// random fraction of k digits; returns (digits, microseconds by truncation, by rounding)
+fn gen_fraction(rng: &mut Rng, k: usize) -> (String, i64, i64) {
+    let style = rng.below(6);
+    let digits: String = (0..k)
+        .map(|i| match style {
+            0 => '9',
+            1 => '0',
+            2 => {
+                if i + 1 == k {
+                    '1'
+                } else {
+                    '0'
+                }
+            }
+            3 => {
+                if i == 6 {
+                    '5'
+                } else {
+                    '9'
+                }
+            }
+            _ => (b'0' + rng.below(10) as u8) as char,
+        })
+        .collect();
+    let mut us: i64 = 0;
+    for (i, b) in digits.bytes().enumerate() {
+        if i < 6 {
+            us = us * 10 + (b - b'0') as i64;
+        }
+    }
+    for _ in k.min(6)..6 {
+        us *= 10;
+    }
+    let round_up = k > 6 && digits.as_bytes()[6] >= b'5';
+    (digits, us, if round_up { us + 1 } else { us })
+}
+
+struct TimeCase {
+    text: String,
+    allowed: Vec<i64>,
+    may_reject: bool,
+}
+
+/// the texts generated for one second of the day
+fn time_cases(rng: &mut Rng, sec: i64, out: &mut Vec<TimeCase>) {
+    let (h, m, s) = (sec / 3600, sec / 60 % 60, sec % 60);
+    let base = sec * 1_000_000;
+    let t0 = format!("{:02}:{:02}:{:02}", h, m, s);
+    out.push(TimeCase { text: t0.clone(), allowed: vec![base], may_reject: false });
+    let k = 1 + ((sec as u64 + rng.below(6)) % 6) as usize;
+    let (dg, us, _) = gen_fraction(rng, k);
+    out.push(TimeCase { text: format!("{}.{}", t0, dg), allowed: vec![base + us], may_reject: false });
+    if rng.chance(1, 4) {
+        // finer than a microsecond: truncation, rounding and rejection are all defensible
+        let k = 7 + rng.below(3) as usize;
+        let (dg, tr, ro) = gen_fraction(rng, k);
+        out.push(TimeCase { text: format!("{}.{}", t0, dg), allowed: vec![base + tr, base + ro], may_reject: true });
+    }
+    if rng.chance(1, 16) {
+        out.push(TimeCase { text: format!("{}.", t0), allowed: vec![base], may_reject: true });
+    }
+}
+
+fn time_block(acc: &mut Acc, rng: &mut Rng, lo: i64, hi: i64) {
+    let mut cases: Vec<TimeCase> = vec![];
+    for sec in lo..hi {
+        time_cases(rng, sec, &mut cases);
+        let (h, m, s) = (sec / 3600, sec / 60 % 60, sec % 60);
+        let t0 = format!("{:02}:{:02}:{:02}", h, m, s);
+        expect_fn_int(acc, "HOUR", &t0, fcall("HOUR", &[tx(&t0)]), h);
+        expect_fn_int(acc, "MINUTE", &t0, fcall("MINUTE", &[tx(&t0)]), m);
+        expect_fn_int(acc, "SECOND", &t0, fcall("SECOND", &[tx(&t0)]), s);
+        expect_fn_int(acc, "TIME_TO_SEC", &t0, fcall("TIME_TO_SEC", &[tx(&t0)]), sec);
+        for (f, got) in [("SEC_TO_TIME", fcall("SEC_TO_TIME", &[iv(sec)])), ("MAKETIME", fcall("MAKETIME", &[iv(h), iv(m), iv(s)]))] {
+            match &got {
+                FOut::Text(t) if read_hms_micros(t) == Some(sec * 1_000_000) => {}
+                FOut::Panic(p) => acc.viol("no_panic", &format!("C41/panic/{}@{}", f, panic_site(p)), || json!({"function": f, "arg": sec, "panic": short(p)})),
+                o => acc.viol("function_value", &format!("C41/function_value/{}", f), || json!({"function": f, "arg": sec, "got": format!("{:?}", o), "expected": t0})),
+            }
+        }
+        acc.nontrivial.insert((2u64 << 40) | sec as u64);
+    }
+    let texts: Vec<String> = cases.iter().map(|c| c.text.clone()).collect();
+    let defaults = conv_defaults(&texts, RecType::Time);
+    for (i, c) in cases.iter().enumerate() {
+        acc.evals += 1;
+        judge_tval(acc, "time", "parse_time", &c.text, &c.allowed, c.may_reject, &conv_time_literal(&c.text));
+        judge_tval(acc, "time", "CAST AS TIME", &c.text, &c.allowed, c.may_reject, &conv_predicate(&c.text, AstType::Time));
+        judge_tval(acc, "time", "DEFAULT time parser", &c.text, &c.allowed, c.may_reject, &defaults[i]);
+        // MICROSECOND(): only where the fraction is exact (1..=6 digits)
+        if !c.may_reject && c.text.contains('.') {
+            let frac = c.allowed[0] % 1_000_000;
+            let six = c.text.len() - c.text.find('.').unwrap() - 1 == 6;
+            match fcall("MICROSECOND", &[tx(&c.text)]) {
+                FOut::Int(v) if v == frac => {}
+                FOut::Panic(p) => acc.viol("no_panic", &format!("C41/panic/MICROSECOND@{}", panic_site(&p)), || json!({"arg": c.text, "panic": short(&p)})),
+                o => {
+                    let sig = if six { "C41/function_value/MICROSECOND" } else { "C41/function_value/MICROSECOND ignores the scale of a short fraction" };
+                    acc.viol("function_value", sig, || json!({"function": "MICROSECOND", "arg": c.text, "got": format!("{:?}", o), "expected": frac}))
+                }
+            }
+        }
+    }
+    acc.count("time_texts", cases.len() as u64);
+}
+
+/// field combinations around the limits and malformed texts
+fn invalid_times(acc: &mut Acc) {
+    let mut cases: Vec<(String, &'static str)> = vec![];
+    for h in 0..=26i64 {
+        for m in 0..=62i64 {
+            for s in 0..=62i64 {
+                let bad = h >= 25 || m >= 60 || s >= 61;
+                if bad {
+                    cases.push((format!("{:02}:{:02}:{:02}", h, m, s), "field out of range"));
+                } else if h == 24 || s == 60 {
+                    acc.count("ambiguous_times_not_judged", 1); // 24:00:00 / leap second: dialects differ
+                }
+            }
+        }
+    }
+    for h in [99i64, 100, 255, 256, 4294967296] {
+        cases.push((format!("{}:00:00", h), "field out of range"));
+        cases.push((format!("00:{}:00", h), "field out of range"));
+        cases.push((format!("00:00:{}", h), "field out of range"));
+    }
+    for t in ["ab:cd:ef", "12:34:5x", "1x:00:00", "12:x0:00", "12:00:00.abc", "12:00:00.12x", "::", "12::00", ":00:00", "12:00:", "-1:00:00", "12:-1:00", "12:00:-1", "12:00:00:00", "12-00-00", "noon", "12:00:00 PM x"] {
+        cases.push((t.to_string(), "malformed"));
+    }
+    let texts: Vec<String> = cases.iter().map(|c| c.0.clone()).collect();
+    let defaults = conv_defaults(&texts, RecType::Time);
+    for (i, (t, class)) in cases.iter().enumerate() {
+        acc.evals += 1;
+        judge_invalid(acc, "time", class, "parse_time", t, &conv_time_literal(t));
+        judge_invalid(acc, "time", class, "CAST AS TIME", t, &conv_predicate(t, AstType::Time));
+        judge_invalid(acc, "time", class, "DEFAULT time parser", t, &defaults[i]);
+        acc.nontrivial.insert((3u64 << 40) | crate::rng::fnv(t.as_bytes()) & 0xffff_ffff);
+    }
+    acc.count("invalid_time_texts", cases.len() as u64);
+}
+
+/// every `step`-th second of one day as TIMESTAMP text; the literal parser (slow far from 1970)
+/// on every `lit_step`-th of those
+fn ts_day(acc: &mut Acc, rng: &mut Rng, ep: &Epochs, z: i64, step: i64, lit_step: i64) {
+    let (y, m, d) = cal::civil_from_days(z);
+    let date = ymd_text(y, m, d);
+    let mut sec = 0i64;
+    let mut idx = 0i64;
+    while sec < 86_400 {
+        let hi = (sec + 3600 * step).min(86_400);
+        let mut cases: Vec<TimeCase> = vec![];
+        let mut lit: Vec<bool> = vec![];
+        let mut s = sec;
+        while s < hi {
+            let n0 = cases.len();
+            time_cases(rng, s, &mut cases);
+            for c in cases[n0..].iter_mut() {
+                let sep = if rng.chance(1, 2) { ' ' } else { 'T' };
+                c.text = format!("{}{}{}", date, sep, c.text);
+                for a in c.allowed.iter_mut() {
+                    *a += z * 86_400_000_000;
+                }
+                lit.push(idx % lit_step == 0);
+            }
+            idx += 1;
+            s += step;
+        }
+        let texts: Vec<String> = cases.iter().map(|c| c.text.clone()).collect();
+        let defaults = conv_defaults(&texts, RecType::Timestamp);
+        for (i, c) in cases.iter().enumerate() {
+            acc.evals += 1;
+            // converters agree on the epoch of the date part (checked in part 1), so one offset
+            let shift = |o: i64| -> Vec<i64> { c.allowed.iter().map(|a| a + o * 86_400_000_000).collect() };
+            if lit[i] {
+                judge_tval(acc, "timestamp", "parse_timestamp", &c.text, &shift(ep.literal), c.may_reject, &conv_ts_literal(&c.text));
+                acc.count("timestamp_literal_texts", 1);
+            }
+            judge_tval(acc, "timestamp", "CAST AS TIMESTAMP", &c.text, &shift(ep.predicate), c.may_reject, &conv_predicate(&c.text, AstType::Timestamp));
+            judge_tval(acc, "timestamp", "DEFAULT timestamp parser", &c.text, &shift(ep.default), c.may_reject, &defaults[i]);
+        }
+        acc.count("timestamp_texts", cases.len() as u64);
+        sec = hi;
+    }
+    acc.nontrivial.insert((4u64 << 40) | (z - cal::MIN_DAY) as u64);
+}
+
+fn invalid_timestamps(acc: &mut Acc, rng: &mut Rng, n: usize) {
+    let mut cases: Vec<(String, &'static str)> = vec![];
+    for i in 0..n {
+        let y = rng.range(1, 9999);
+        let sep = if i % 2 == 0 { ' ' } else { 'T' };
+        if i % 3 != 0 {
+            // invalid date part, valid time part
+            let (m, d) = match rng.below(6) {
+                0 => (2, if cal::is_leap(y) { 30 } else { 29 }),
+                1 => (*rng.pick(&[4u32, 6, 9, 11]), 31),
+                2 => (0, rng.range(1, 28) as u32),
+                3 => (13, rng.range(1, 28) as u32),
+                4 => (rng.range(1, 12) as u32, 0),
+                _ => (rng.range(1, 12) as u32, 32),
+            };
+            let sec = rng.range(0, 86_399);
+            cases.push((format!("{}{}{:02}:{:02}:{:02}", ymd_text(y, m, d), sep, sec / 3600, sec / 60 % 60, sec % 60), "invalid date part"));
+        } else {
+            let z = rng.range(cal::MIN_DAY, cal::MAX_DAY);
+            let (y, m, d) = cal::civil_from_days(z);
+            let (h, mi, s) = match rng.below(3) {
+                0 => (rng.range(25, 99), rng.range(0, 59), rng.range(0, 59)),
+                1 => (rng.range(0, 23), rng.range(60, 99), rng.range(0, 59)),
+                _ => (rng.range(0, 23), rng.range(0, 59), rng.range(61, 99)),
+            };
+            cases.push((format!("{}{}{:02}:{:02}:{:02}", ymd_text(y, m, d), sep, h, mi, s), "invalid time part"));
+        }
+    }
+    let texts: Vec<String> = cases.iter().map(|c| c.0.clone()).collect();
+    let defaults = conv_defaults(&texts, RecType::Timestamp);
+    for (i, (t, class)) in cases.iter().enumerate() {
+        acc.evals += 1;
+        judge_invalid(acc, "timestamp", class, "parse_timestamp", t, &conv_ts_literal(t));
+        judge_invalid(acc, "timestamp", class, "CAST AS TIMESTAMP", t, &conv_predicate(t, AstType::Timestamp));
+        judge_invalid(acc, "timestamp", class, "DEFAULT timestamp parser", t, &defaults[i]);
+    }
+    acc.count("invalid_timestamp_texts", cases.len() as u64);
+}
+
+// ------------------------------------------------------------------------------------------
+// Part 2: the same through SQL on a real database
+// ------------------------------------------------------------------------------------------
+fn sql_q(db: &Database, sql: &str) -> Result<Vec<turdb::Row>, String> {
+    match catch(|| db.query(sql)) {
+        Ok(Ok(r)) => Ok(r),
+        Ok(Err(e)) => Err(format!("error: {:#}", e)),
+        Err(p) => Err(format!("panic: {}", p)),
+    }
+}
+fn sql_x(db: &Database, sql: &str) -> Result<(), String> {
+    match catch(|| db.execute(sql)) {
+        Ok(Ok(_)) => Ok(()),
+        Ok(Err(e)) => Err(format!("error: {:#}", e)),
+        Err(p) => Err(format!("panic: {}", p)),
+    }
+}
+/// a statement of the harness' own scaffolding failed: not a verdict about the calendar
+fn scaffold_fail(acc: &mut Acc, what: &str, sql: &str, err: &str) {
+    if err.starts_with("panic:") {
+        acc.viol("no_panic", &format!("C41/panic/sql {}@{}", what, panic_site(err)), || json!({"sql": short(sql), "panic": short(err)}));
+    } else {
+        acc.viol("sql_statement_ok", &format!("C41/sql_failed/{}", what), || json!({"sql": short(sql), "error": short(err)}));
+    }
+}
+fn row_id(r: &turdb::Row) -> Option<i64> {
+    match r.values.first() {
+        Some(OwnedValue::Int(i)) => Some(*i),
+        _ => None,
+    }
+}
+
+fn sample_days(rng: &mut Rng, quick: bool, miri: bool) -> Vec<i64> {
+    let mut v: Vec<i64> = vec![];
+    if miri {
+        for _ in 0..20 {
+            v.push(rng.range(cal::MIN_DAY, cal::MAX_DAY));
+        }
+    } else {
+        let phase = rng.below(50) as i64;
+        let mut z = cal::MIN_DAY + phase;
+        while z <= cal::MAX_DAY {
+            v.push(z);
+            z += 50;
+        }
+        let month_years: HashSet<i64> = if quick { (0..400).map(|_| rng.range(1, 9999)).collect() } else { (1..=9999).collect() };
+        for y in 1..=9999i64 {
+            let near = y == 1 || y == 9999 || (1968..=1972).contains(&y) || y % 100 == 0 || (1999..=2001).contains(&y);
+            v.push(cal::days_from_civil(y, 1, 1));
+            v.push(cal::days_from_civil(y, 12, 31));
+            v.push(cal::days_from_civil(y, 2, 28));
+            v.push(cal::days_from_civil(y, 3, 1));
+            if cal::is_leap(y) {
+                v.push(cal::days_from_civil(y, 2, 29));
+            }
+            if near || month_years.contains(&y) {
+                for m in 1..=12 {
+                    v.push(cal::days_from_civil(y, m, 1));
+                    v.push(cal::days_from_civil(y, m, cal::dim(y, m)));
+                }
+            }
+        }
+    }
+    v.push(cal::MIN_DAY);
+    v.push(cal::MAX_DAY);
+    v.push(0);
+    v.push(-1);
+    v.sort();
+    v.dedup();
+    v
+}
+
+const DATE_FNS: [&str; 11] = ["YEAR", "MONTH", "DAY", "DAYOFWEEK", "DAYOFYEAR", "LAST_DAY", "DAYNAME", "TO_DAYS", "QUARTER", "WEEKDAY", "MONTHNAME"];
+
+/// expected result of DATE_FNS[i] on day z
+enum FnExp {
+    I(i64),
+    D((i64, u32, u32)),
+    T(&'static str),
+}
+fn fn_expected(ep: &Epochs, z: i64) -> Vec<FnExp> {
+    let (y, m, d) = cal::civil_from_days(z);
+    let wd = cal::weekday(z) as i64;
+    vec![
+        FnExp::I(y),
+        FnExp::I(m as i64),
+        FnExp::I(d as i64),
+        FnExp::I(1 + (wd - 6 + (ep.dow_sat - 1)).rem_euclid(7)),
+        FnExp::I(cal::day_of_year(y, m, d) as i64),
+        FnExp::D((y, m, cal::dim(y, m))),
+        FnExp::T(cal::DAY_NAMES[wd as usize]),
+        FnExp::I(z + ep.to_days),
+        FnExp::I(((m - 1) / 3 + 1) as i64),
+        FnExp::I((wd - 6 + ep.wd_sat).rem_euclid(7)),
+        FnExp::T(cal::MONTH_NAMES[(m - 1) as usize]),
+    ]
+}
+fn fn_matches(e: &FnExp, v: &OwnedValue) -> bool {
+    match (e, v) {
+        (FnExp::I(a), OwnedValue::Int(b)) => a == b,
+        (FnExp::D(a), OwnedValue::Text(s)) => read_ymd(s) == Some(*a),
+        (FnExp::D(a), OwnedValue::Date(n)) => cal::civil_from_days(*n as i64) == *a,
+        (FnExp::T(a), OwnedValue::Text(s)) => a == s,
+        _ => false,
+    }
+}
+fn fn_exp_json(e: &FnExp) -> J {
+    match e {
+        FnExp::I(a) => json!(a),
+        FnExp::D(a) => json!(ymd_text(a.0, a.1, a.2)),
+        FnExp::T(a) => json!(a),
+    }
+}
+
+/// check a `SELECT id, F1(arg), F2(arg), ..` result; `assertion`/`sigbase` distinguish text vs DATE argument
+fn check_fn_rows(acc: &mut Acc, ep: &Epochs, rows: &[turdb::Row], days: &[i64], assertion: &str, sigbase: &str, argdesc: &str) {
+    for r in rows {
+        let Some(id) = row_id(r) else { continue };
+        let Some(&z) = days.get((id - 1) as usize) else { continue };
+        let exp = fn_expected(ep, z);
+        acc.count(&format!("sql_function_rows_checked[{}]", argdesc), 1);
+        for (i, e) in exp.iter().enumerate() {
+            let got = r.values.get(i + 1).cloned().unwrap_or(OwnedValue::Null);
+            if fn_matches(e, &got) {
+                continue;
+            }
+            let (y, m, d) = cal::civil_from_days(z);
+            let sig = if got == OwnedValue::Null { format!("C41/{}/{} returns NULL for {}", sigbase, DATE_FNS[i], argdesc) } else { format!("C41/{}/{}", sigbase, DATE_FNS[i]) };
+            acc.viol(assertion, &sig, || json!({"function": DATE_FNS[i], "argument": argdesc, "date": ymd_text(y, m, d), "got": format!("{:?}", got), "expected": fn_exp_json(e)}));
+        }
+    }
+}
+
+struct SqlData {
+    days: Vec<i64>,
+    times: Vec<(String, i64)>,
+    stamps: Vec<(String, i64)>,
+}
+
+fn gen_time_text(rng: &mut Rng, i: usize) -> (String, i64) {
+    let sec = match i {
+        0 => 0,
+        1 => 86_399,
+        2 => 43_200,
+        _ => match rng.below(4) {
+            0 => rng.range(0, 23) * 3600 + 3599,
+            1 => rng.range(0, 23) * 3600,
+            _ => rng.range(0, 86_399),
+        },
+    };
+    let t0 = format!("{:02}:{:02}:{:02}", sec / 3600, sec / 60 % 60, sec % 60);
+    if i % 2 == 0 {
+        (t0, sec * 1_000_000)
+    } else {
+        let k = 1 + (i / 2) % 6;
+        let (dg, us, _) = gen_fraction(rng, k);
+        (format!("{}.{}", t0, dg), sec * 1_000_000 + us)
+    }
+}
+
+fn sql_insert_batches(acc: &mut Acc, db: &Database, table: &str, rows: &[String]) -> bool {
+    for chunk in rows.chunks(250) {
+        let sql = format!("INSERT INTO {} VALUES {}", table, chunk.join(", "));
+        if let Err(e) = sql_x(db, &sql) {
+            scaffold_fail(acc, &format!("INSERT INTO {}", table), &sql, &e);
+            return false;
+        }
+    }
+    true
+}
+
+fn sql_part(acc: &mut Acc, rng: &mut Rng, ep: &Epochs, dbpath: &str, quick: bool, miri: bool, reduce: bool) -> Option<SqlData> {
+    let db = match catch(|| Database::create(dbpath)) {
+        Ok(Ok(db)) => db,
+        o => {
+            acc.viol("sql_statement_ok", "C41/sql_failed/Database::create", || json!({"error": format!("{:?}", o.map(|r| r.map(|_| ()).map_err(|e| e.to_string())))}));
+            return None;
+        }
+    };
+    let mut days = sample_days(rng, quick, miri);
+    if reduce {
+        // the machine is overloaded (the exhaustive pass took several times its normal time):
+        // keep the quick tier inside its budget; recorded in the evidence
+        let keep = rng.below(4) as usize;
+        let n = days.len();
+        days = days.into_iter().enumerate().filter(|(i, _)| i % 4 == keep || *i < 2 || *i + 2 >= n).map(|(_, z)| z).collect();
+        for z in [0i64, -1] {
+            if !days.contains(&z) {
+                days.push(z);
+            }
+        }
+        days.sort();
+        acc.count("sql_sample_reduced_to_a_quarter_because_of_machine_load", 1);
+    }
+    let days = days;
+    let mut clock = std::time::Instant::now();
+    let mut lap = |acc: &mut Acc, name: &str| {
+        acc.count(&format!("ms_sql[{}]", name), clock.elapsed().as_millis() as u64);
+        clock = std::time::Instant::now();
+    };
+    for ddl in ["CREATE TABLE t (id INT, s TEXT, d DATE)", "CREATE TABLE tt (id INT, s TEXT, tm TIME)", "CREATE TABLE tts (id INT, s TEXT, ts TIMESTAMP)"] {
+        if let Err(e) = sql_x(&db, ddl) {
+            scaffold_fail(acc, "CREATE TABLE", ddl, &e);
+            return None;
+        }
+    }
+    // ---- dates
+    let rows: Vec<String> = days
+        .iter()
+        .enumerate()
+        .map(|(i, z)| {
+            let (y, m, d) = cal::civil_from_days(*z);
+            let t = ymd_text(y, m, d);
+            format!("({}, '{}', '{}')", i + 1, t, t)
+        })
+        .collect();
+    if !sql_insert_batches(acc, &db, "t", &rows) {
+        return None;
+    }
+    acc.count("sql_date_rows_inserted", days.len() as u64);
+    let check_stored = |acc: &mut Acc, db: &Database, phase: &str| match sql_q(db, "SELECT id, s, d FROM t") {
+        Ok(rs) => {
+            let mut seen = 0u64;
+            for r in &rs {
+                let Some(id) = row_id(r) else { continue };
+                let Some(&z) = days.get((id - 1) as usize) else { continue };
+                seen += 1;
+                acc.evals += 1;
+                let (y, m, d) = cal::civil_from_days(z);
+                acc.nontrivial.insert((5u64 << 40) | ((y.rem_euclid(400) as u64) << 16) | ((m as u64) << 8) | d as u64);
+                match r.values.get(2) {
+                    Some(OwnedValue::Date(n)) if *n as i64 == z + ep.literal => {}
+                    o => acc.viol("sql_round_trip", &format!("C41/sql_round_trip/DATE column {}", phase), || json!({"text": ymd_text(y, m, d), "got": format!("{:?}", o), "expected_days": z + ep.literal})),
+                }
+            }
+            acc.count(&format!("sql_date_rows_read_{}", phase), seen);
+            if seen != days.len() as u64 {
+                // rows lost by storage are another property's business; judged rows are the ones that came back
+                acc.count(&format!("sql_date_rows_missing_{}", phase), days.len() as u64 - seen.min(days.len() as u64));
+            }
+        }
+        Err(e) => scaffold_fail(acc, "SELECT stored dates", "SELECT id, s, d FROM t", &e),
+    };
+    lap(acc, "insert dates");
+    check_stored(acc, &db, "after insert");
+    lap(acc, "read dates");
+    // CAST in a projection and in a predicate over the whole table
+    match sql_q(&db, "SELECT id, CAST(s AS DATE) FROM t") {
+        Ok(rs) => {
+            for r in &rs {
+                let Some(id) = row_id(r) else { continue };
+                let Some(&z) = days.get((id - 1) as usize) else { continue };
+                acc.evals += 1;
+                match r.values.get(1) {
+                    Some(OwnedValue::Int(n)) if *n == z + ep.predicate => {}
+                    Some(OwnedValue::Date(n)) if *n as i64 == z + ep.predicate => {}
+                    o => acc.viol("date_value", "C41/date_value/SQL CAST AS DATE", || json!({"day": z, "got": format!("{:?}", o)})),
+                }
+            }
+        }
+        Err(e) => scaffold_fail(acc, "SELECT CAST(s AS DATE)", "SELECT id, CAST(s AS DATE) FROM t", &e),
+    }
+    match sql_q(&db, "SELECT id FROM t WHERE d = CAST(s AS DATE)") {
+        Ok(rs) => {
+            acc.evals += 1;
+            if rs.len() != days.len() {
+                acc.viol("converters_agree", "C41/converters_agree/WHERE d = CAST(s AS DATE) does not select every row", || json!({"selected": rs.len(), "rows": days.len()}));
+            }
+        }
+        Err(e) => scaffold_fail(acc, "WHERE d = CAST(s AS DATE)", "SELECT id FROM t WHERE d = CAST(s AS DATE)", &e),
+    }
+    lap(acc, "cast queries");
+    // date functions over the text and over the DATE column
+    let list = |arg: &str| DATE_FNS.iter().map(|f| format!("{}({})", f, arg)).collect::<Vec<_>>().join(", ");
+    let qtext = format!("SELECT id, {} FROM t", list("s"));
+    match sql_q(&db, &qtext) {
+        Ok(rs) => {
+            acc.evals += rs.len() as u64;
+            check_fn_rows(acc, ep, &rs, &days, "function_value", "sql_function_value", "a text argument")
+        }
+        Err(e) => scaffold_fail(acc, "date functions over text column", &qtext, &e),
+    }
+    let qdate = format!("SELECT id, {} FROM t", list("d"));
+    match sql_q(&db, &qdate) {
+        Ok(rs) => {
+            acc.evals += rs.len() as u64;
+            check_fn_rows(acc, ep, &rs, &days, "fn_on_date_value", "fn_on_date_value", "a DATE column")
+        }
+        Err(e) => scaffold_fail(acc, "date functions over DATE column", &qdate, &e),
+    }
+    lap(acc, "function scans");
+    // literal argument form, one statement per date, on a subset
+    let nlit = if miri { 3 } else if quick { 1500 } else { 20_000 };
+    for _ in 0..nlit.min(days.len()) {
+        let idx = rng.below(days.len() as u64) as usize;
+        let (y, m, d) = cal::civil_from_days(days[idx]);
+        let t = ymd_text(y, m, d);
+        let q = format!("SELECT {}, {}", idx + 1, list(&format!("'{}'", t)));
+        match sql_q(&db, &q) {
+            Ok(rs) => {
+                acc.evals += 1;
+                check_fn_rows(acc, ep, &rs, &days, "function_value", "sql_function_value", "a literal argument")
+            }
+            Err(e) => scaffold_fail(acc, "date functions over literal", &q, &e),
+        }
+    }
+    lap(acc, "function literal statements");
+    // undocumented: implicit text->date coercion in comparisons. Observed, not judged.
+    {
+        let (y, m, d) = cal::civil_from_days(days[days.len() / 2]);
+        let q = format!("SELECT id FROM t WHERE d = '{}'", ymd_text(y, m, d));
+        if let Ok(rs) = sql_q(&db, &q) {
+            acc.count("observed_where_date_eq_text_literal_rows", rs.len() as u64);
+        }
+    }
+    // ---- invalid literals must be rejected by INSERT
+    let ninv = if miri { 4 } else if quick { 400 } else { 4000 };
+    let mut rejected = 0u64;
+    for i in 0..ninv {
+        let y = rng.range(1, 9999);
+        let (m, d) = match i % 6 {
+            0 => (2, if cal::is_leap(y) { 30 } else { 29 }),
+            1 => (*rng.pick(&[4u32, 6, 9, 11]), 31),
+            2 => (0, rng.range(1, 28) as u32),
+            3 => (13, rng.range(1, 28) as u32),
+            4 => (rng.range(1, 12) as u32, 0),
+            _ => (rng.range(1, 12) as u32, 32),
+        };
+        let t = ymd_text(y, m, d);
+        acc.evals += 1;
+        let sql = format!("INSERT INTO t VALUES ({}, '{}', '{}')", 10_000_000 + i, t, t);
+        match sql_x(&db, &sql) {
+            Err(e) if e.starts_with("panic:") => scaffold_fail(acc, "INSERT invalid date", &sql, &e),
+            Err(_) => rejected += 1,
+            Ok(()) => acc.viol("invalid_rejected", "C41/invalid_rejected/INSERT accepts invalid date", || json!({"sql": sql})),
+        }
+        let (tsql, tclass) = match i % 3 {
+            0 => (format!("INSERT INTO tt VALUES ({}, 'x', '{:02}:{:02}:{:02}')", 10_000_000 + i, rng.range(25, 99), rng.range(0, 59), rng.range(0, 59)), "time"),
+            1 => (format!("INSERT INTO tt VALUES ({}, 'x', '{:02}:{:02}:{:02}')", 10_000_000 + i, rng.range(0, 23), rng.range(60, 99), rng.range(0, 59)), "time"),
+            _ => (format!("INSERT INTO tts VALUES ({}, 'x', '{} {:02}:{:02}:{:02}')", 10_000_000 + i, t, rng.range(0, 23), rng.range(0, 59), rng.range(0, 59)), "timestamp"),
+        };
+        match sql_x(&db, &tsql) {
+            Err(e) if e.starts_with("panic:") => scaffold_fail(acc, "INSERT invalid time", &tsql, &e),
+            Err(_) => rejected += 1,
+            Ok(()) => acc.viol("invalid_rejected", &format!("C41/invalid_rejected/INSERT accepts invalid {}", tclass), || json!({"sql": tsql})),
+        }
+    }
+    acc.count("sql_invalid_literals_rejected", rejected);
+    lap(acc, "invalid inserts");
+    // ---- times and timestamps
+    let nt = if miri { 6 } else if quick { 3000 } else { 40_000 };
+    let times: Vec<(String, i64)> = (0..nt).map(|i| gen_time_text(rng, i)).collect();
+    let rows: Vec<String> = times.iter().enumerate().map(|(i, (t, _))| format!("({}, '{}', '{}')", i + 1, t, t)).collect();
+    if sql_insert_batches(acc, &db, "tt", &rows) {
+        match sql_q(&db, "SELECT id, tm, CAST(s AS TIME), HOUR(s), MINUTE(s), SECOND(s) FROM tt") {
+            Ok(rs) => {
+                for r in &rs {
+                    let Some(id) = row_id(r) else { continue };
+                    let Some((t, us)) = times.get((id - 1) as usize) else { continue };
+                    acc.evals += 1;
+                    acc.nontrivial.insert((6u64 << 40) | (*us as u64 / 1_000_000));
+                    let sec = us / 1_000_000;
+                    let exp = [OwnedValue::Time(*us), OwnedValue::Int(*us), OwnedValue::Int(sec / 3600), OwnedValue::Int(sec / 60 % 60), OwnedValue::Int(sec % 60)];
+                    let names = ["TIME column", "SQL CAST AS TIME", "SQL HOUR", "SQL MINUTE", "SQL SECOND"];
+                    for k in 0..5 {
+                        let got = r.values.get(k + 1);
+                        let ok = got == Some(&exp[k]) || (k == 1 && got == Some(&OwnedValue::Time(*us)));
+                        if !ok {
+                            acc.viol(if k == 0 { "sql_round_trip" } else { "time_value" }, &format!("C41/{}/{}", if k == 0 { "sql_round_trip" } else { "time_value" }, names[k]), || json!({"text": t, "got": format!("{:?}", got), "expected": format!("{:?}", exp[k])}));
+                        }
+                    }
+                }
+                acc.count("sql_time_rows_read", rs.len() as u64);
+            }
+            Err(e) => scaffold_fail(acc, "SELECT times", "SELECT id, tm, .. FROM tt", &e),
+        }
+    }
+    let ns = if miri { 6 } else if quick { 3000 } else { 40_000 };
+    let stamps: Vec<(String, i64)> = (0..ns)
+        .map(|i| {
+            let z = match i % 8 {
+                0 => cal::MIN_DAY,
+                1 => cal::MAX_DAY,
+                2 => -1,
+                3 => 0,
+                _ => days[rng.below(days.len() as u64) as usize],
+            };
+            let (y, m, d) = cal::civil_from_days(z);
+            let (t, us) = gen_time_text(rng, if i < 64 { i / 8 } else { i });
+            (format!("{}{}{}", ymd_text(y, m, d), if i % 3 == 0 { 'T' } else { ' ' }, t), z * 86_400_000_000 + us)
+        })
+        .collect();
+    let rows: Vec<String> = stamps.iter().enumerate().map(|(i, (t, _))| format!("({}, '{}', '{}')", i + 1, t, t)).collect();
+    if sql_insert_batches(acc, &db, "tts", &rows) {
+        match sql_q(&db, "SELECT id, ts, CAST(s AS TIMESTAMP) FROM tts") {
+            Ok(rs) => {
+                for r in &rs {
+                    let Some(id) = row_id(r) else { continue };
+                    let Some((t, us)) = stamps.get((id - 1) as usize) else { continue };
+                    acc.evals += 1;
+                    acc.nontrivial.insert((7u64 << 40) | (us.div_euclid(1_000_000) as u64 & 0xff_ffff_ffff));
+                    let us_l = us + ep.literal * 86_400_000_000;
+                    if r.values.get(1) != Some(&OwnedValue::Timestamp(us_l)) {
+                        acc.viol("sql_round_trip", "C41/sql_round_trip/TIMESTAMP column", || json!({"text": t, "got": format!("{:?}", r.values.get(1)), "expected": us_l}));
+                    }
+                    let us_p = us + ep.predicate * 86_400_000_000;
+                    let got = r.values.get(2);
+                    if !(got == Some(&OwnedValue::TimestampTz(us_p, 0)) || got == Some(&OwnedValue::Timestamp(us_p)) || got == Some(&OwnedValue::Int(us_p))) {
+                        acc.viol("timestamp_value", "C41/timestamp_value/SQL CAST AS TIMESTAMP", || json!({"text": t, "got": format!("{:?}", got), "expected": us_p}));
+                    }
+                }
+                acc.count("sql_timestamp_rows_read", rs.len() as u64);
+            }
+            Err(e) => scaffold_fail(acc, "SELECT timestamps", "SELECT id, ts, .. FROM tts", &e),
+        }
+    }
+    lap(acc, "times and timestamps");
+    // ---- DEFAULT through DDL + INSERT
+    let ncols = 60usize;
+    let ntab = if miri { 1 } else if quick { 15 } else { 150 };
+    for k in 0..ntab {
+        let picks: Vec<i64> = (0..ncols).map(|i| if k == 0 && i < 4 { [cal::MIN_DAY, cal::MAX_DAY, 0, -1][i] } else { days[rng.below(days.len() as u64) as usize] }).collect();
+        let cols: Vec<String> = picks
+            .iter()
+            .enumerate()
+            .map(|(i, z)| {
+                let (y, m, d) = cal::civil_from_days(*z);
+                format!("c{} DATE DEFAULT '{}'", i, ymd_text(y, m, d))
+            })
+            .collect();
+        let ddl = format!("CREATE TABLE df{} (id INT, {})", k, cols.join(", "));
+        if let Err(e) = sql_x(&db, &ddl) {
+            scaffold_fail(acc, "CREATE TABLE with DATE DEFAULTs", &ddl, &e);
+            break;
+        }
+        let ins = format!("INSERT INTO df{} (id) VALUES (1)", k);
+        if let Err(e) = sql_x(&db, &ins) {
+            scaffold_fail(acc, "INSERT using DATE DEFAULTs", &ins, &e);
+            break;
+        }
+        match sql_q(&db, &format!("SELECT * FROM df{}", k)) {
+            Ok(rs) if rs.len() == 1 => {
+                for (i, z) in picks.iter().enumerate() {
+                    acc.evals += 1;
+                    match rs[0].values.get(i + 1) {
+                        Some(OwnedValue::Date(n)) if *n as i64 == z + ep.default => {}
+                        o => acc.viol("date_value", "C41/date_value/SQL DEFAULT date", || json!({"day": z, "got": format!("{:?}", o)})),
+                    }
+                }
+                acc.count("sql_default_dates", picks.len() as u64);
+            }
+            Ok(rs) => acc.count("sql_default_rows_unexpected_count", rs.len() as u64 + 1),
+            Err(e) => scaffold_fail(acc, "SELECT defaults", "SELECT * FROM df", &e),
+        }
+    }
+    // invalid DEFAULT texts: any refusal (DDL error, INSERT error, NULL) is fine; a stored value is not
+    let bad_defaults: [(&str, &str, &str); 8] = [
+        ("DATE", "2023-02-29", "date"),
+        ("DATE", "2024-02-30", "date"),
+        ("DATE", "2024-04-31", "date"),
+        ("DATE", "2024-13-01", "date"),
+        ("DATE", "2024-00-10", "date"),
+        ("DATE", "2024-01-32", "date"),
+        ("TIME", "25:00:00", "time"),
+        ("TIMESTAMP", "2023-02-29 12:00:00", "timestamp"),
+    ];
+    for (k, (ty, text, kind)) in bad_defaults.iter().enumerate() {
+        acc.evals += 1;
+        let ddl = format!("CREATE TABLE bd{} (id INT, c {} DEFAULT '{}')", k, ty, text);
+        if sql_x(&db, &ddl).is_err() {
+            continue;
+        }
+        if sql_x(&db, &format!("INSERT INTO bd{} (id) VALUES (1)", k)).is_err() {
+            continue;
+        }
+        if let Ok(rs) = sql_q(&db, &format!("SELECT c FROM bd{}", k)) {
+            if let Some(v) = rs.first().and_then(|r| r.values.first()) {
+                if *v != OwnedValue::Null {
+                    acc.viol("invalid_rejected", &format!("C41/invalid_rejected/DEFAULT {} parser accepts invalid {}", kind, kind), || json!({"ddl": ddl, "stored": format!("{:?}", v)}));
+                }
+            }
+        }
+    }
+    lap(acc, "defaults");
+    // ---- close, reopen, read again
+    let closed = catch(|| {
+        let _ = db.close();
+        drop(db);
+    });
+    if let Err(p) = closed {
+        acc.viol("no_panic", &format!("C41/panic/close@{}", panic_site(&p)), || json!({"panic": short(&p)}));
+    }
+    if !miri {
+        match catch(|| Database::open(dbpath)) {
+            Ok(Ok(db2)) => {
+                check_stored(acc, &db2, "after reopen");
+                let _ = catch(|| {
+                    let _ = db2.close();
+                    drop(db2);
+                });
+            }
+            o => acc.viol("sql_statement_ok", "C41/sql_failed/Database::open after close", || json!({"error": format!("{:?}", o.map(|r| r.map(|_| ()).map_err(|e| e.to_string())))})),
+        }
+    }
+    lap(acc, "close reopen read");
+    Some(SqlData { days, times, stamps })
+}
+
+// ------------------------------------------------------------------------------------------
+// Rendering. The only text renderer of DATE/TIME/TIMESTAMP is cli::table (feature `cli`), which
+// the harness crate does not enable; it is reached through the turdb CLI binary when available.
+// ------------------------------------------------------------------------------------------
+fn find_cli() -> Option<String> {
+    let mut cands: Vec<String> = vec![];
+    if let Ok(p) = std::env::var("TV_TURDB_CLI") {
+        cands.push(p);
+    }
+    for p in ["/verif/target/cli/debug/turdb", "/verif/target/cli/release/turdb", "/verif/target/debug/turdb", "/verif/target/release/turdb", "/verif/target-agent-c41/cli/debug/turdb"] {
+        cands.push(p.to_string());
+    }
+    cands.into_iter().find(|p| std::path::Path::new(p).is_file())
+}
+
+/// run one SELECT through the CLI on the (closed) database; returns the data rows as cells
+fn cli_query(cli: &str, dbpath: &str, sql: &str) -> Result<Vec<Vec<String>>, String> {
+    use std::io::Write;
+    use std::process::{Command, Stdio};
+    let mut child = Command::new(cli).arg(dbpath).stdin(Stdio::piped()).stdout(Stdio::piped()).stderr(Stdio::piped()).spawn().map_err(|e| e.to_string())?;
+    {
+        let mut si = child.stdin.take().ok_or("no stdin")?;
+        si.write_all(format!("{};\n.quit\n", sql).as_bytes()).map_err(|e| e.to_string())?;
+    }
+    let out = child.wait_with_output().map_err(|e| e.to_string())?;
+    let text = String::from_utf8_lossy(&out.stdout);
+    let mut rows = vec![];
+    for line in text.lines() {
+        let line = line.trim();
+        if !line.starts_with('|') {
+            continue;
+        }
+        let cells: Vec<String> = line.trim_matches('|').split('|').map(|c| c.trim().to_string()).collect();
+        if cells.first().map(|c| c == "id").unwrap_or(true) {
+            continue;
+        }
+        rows.push(cells);
+    }
+    if rows.is_empty() {
+        return Err(format!("no table in CLI output; exit {:?}; stderr: {}", out.status.code(), short(&String::from_utf8_lossy(&out.stderr))));
+    }
+    Ok(rows)
+}
+
+fn render_part(acc: &mut Acc, cli: &str, dbpath: &str, data: &SqlData) {
+    // `SELECT *` on purpose: the CLI runs Database::execute, whose SELECT path mis-maps projections
+    // that are not a prefix of the table's columns (not a calendar matter, reported separately).
+    // Tables are (id, s, <value>): the rendered value is cell 2.
+    // DATE: ISO 8601 YYYY-MM-DD is the documented literal form; the statement asks for the same text back
+    match cli_query(cli, dbpath, "SELECT * FROM t") {
+        Ok(rows) => {
+            let mut n = 0u64;
+            for r in &rows {
+                let (Some(id), Some(cell)) = (r.first().and_then(|c| c.parse::<i64>().ok()), r.get(2)) else { continue };
+                let Some(&z) = data.days.get((id - 1) as usize) else { continue };
+                n += 1;
+                acc.evals += 1;
+                let (y, m, d) = cal::civil_from_days(z);
+                let want = ymd_text(y, m, d);
+                if read_ymd(cell) != Some((y, m, d)) {
+                    acc.viol("render_value", "C41/render_value/date", || json!({"stored_day": z, "rendered": cell, "expected": want}));
+                } else if *cell != want {
+                    acc.viol("render_canonical", "C41/render_canonical/date", || json!({"stored_day": z, "rendered": cell, "expected": want}));
+                }
+            }
+            acc.count("rendered_dates", n);
+        }
+        Err(e) => acc.count(&format!("render_cli_failed[{}]", short(&e)), 1),
+    }
+    match cli_query(cli, dbpath, "SELECT * FROM tt") {
+        Ok(rows) => {
+            let mut n = 0u64;
+            for r in &rows {
+                let (Some(id), Some(cell)) = (r.first().and_then(|c| c.parse::<i64>().ok()), r.get(2)) else { continue };
+                let Some((t, us)) = data.times.get((id - 1) as usize) else { continue };
+                n += 1;
+                acc.evals += 1;
+                if read_hms_micros(cell) != Some(*us) {
+                    acc.viol("render_value", "C41/render_value/time", || json!({"literal": t, "stored_micros": us, "rendered": cell}));
+                }
+            }
+            acc.count("rendered_times", n);
+        }
+        Err(e) => acc.count(&format!("render_cli_failed[{}]", short(&e)), 1),
+    }
+    match cli_query(cli, dbpath, "SELECT * FROM tts") {
+        Ok(rows) => {
+            let mut n = 0u64;
+            for r in &rows {
+                let (Some(id), Some(cell)) = (r.first().and_then(|c| c.parse::<i64>().ok()), r.get(2)) else { continue };
+                let Some((t, us)) = data.stamps.get((id - 1) as usize) else { continue };
+                n += 1;
+                acc.evals += 1;
+                if read_ts_micros(cell) != Some(*us) {
+                    let sig = if *us < 0 { "C41/render_value/timestamp before 1970" } else { "C41/render_value/timestamp" };
+                    acc.viol("render_value", sig, || json!({"literal": t, "stored_micros": us, "rendered": cell}));
+                }
+            }
+            acc.count("rendered_timestamps", n);
+        }
+        Err(e) => acc.count(&format!("render_cli_failed[{}]", short(&e)), 1),
+    }
+}
+
+// ------------------------------------------------------------------------------------------
+pub fn run(a: &Args) -> i32 {
+    let miri = cfg!(miri);
+    let mut ctx = Ctx::new(
+        "C41",
+        &a.tier,
+        a.seed,
+        "exploration",
+        "dates: every (y,m,d) with y in 1..=9999, m in 0..=13, d in 0..=32 (all 3 652 059 valid days + every invalid combination) through parse_date, the DEFAULT parser, CAST AS DATE in the predicate evaluator and the date functions, against a harness calendar that is itself cross-checked day by day; SQL: 1-in-50 sample + year/leap/month boundaries inserted, read back, cast, compared and fed to the functions; times: every second of the day with fractions of 0..9 digits; timestamps: every second of sampled and boundary days. distinct_nontrivial = distinct (year mod 400, month, day) / second-of-day / sampled-day classes observed",
+    );
+    ctx.max_samples = 8;
+    let mut rng = Rng::derive(a.seed, 41);
+    let quick = ctx.quick();
+
+    // 0. the oracle checks itself first
+    let (cy_lo, cy_hi) = if miri { (1995, 2005) } else { (1, 9999) };
+    match cal::selfcheck(cy_lo, cy_hi) {
+        Ok(n) => {
+            ctx.extra.insert("calendar_selfcheck_days".into(), json!(n));
+        }
+        Err(e) => {
+            ctx.inconclusive(&format!("harness calendar self-check failed: {}", e));
+            return ctx.finish();
+        }
+    }
+    let ep = match measure_epochs() {
+        Ok(e) => e,
+        Err(e) => {
+            ctx.eval();
+            ctx.violation("valid_accepted", "C41/valid_rejected/anchor date 1970-01-01", json!({"detail": e}));
+            return ctx.finish();
+        }
+    };
+    ctx.extra.insert(
+        "measured_conventions".into(),
+        json!({"day_number_of_1970-01-01": {"parse_date": ep.literal, "DEFAULT": ep.default, "CAST AS DATE": ep.predicate, "TO_DAYS": ep.to_days}, "DAYOFWEEK(saturday)": ep.dow_sat, "WEEKDAY(saturday)": ep.wd_sat}),
+    );
+    let mut top = Acc::default();
+    // everything that ends up in a DATE column must use one epoch
+    if ep.default != ep.literal || ep.predicate != ep.literal {
+        top.viol("converters_agree", "C41/converters_agree/epoch differs between converters", || json!({"parse_date": ep.literal, "DEFAULT": ep.default, "CAST": ep.predicate}));
+    }
+    if !(1..=7).contains(&ep.dow_sat) || !(0..=6).contains(&ep.wd_sat) {
+        top.viol("function_value", "C41/function_value/DAYOFWEEK or WEEKDAY out of range on the anchor", || json!({"DAYOFWEEK": ep.dow_sat, "WEEKDAY": ep.wd_sat}));
+    }
+
+    // 1 + 3. dates
+    let nthreads = if miri { 1 } else { std::thread::available_parallelism().map(|n| n.get()).unwrap_or(4).min(8) };
+    let years: Vec<(i64, DateOpts)> = if miri {
+        [1970i64, 2000, 2023, 2024].iter().map(|y| (*y, DateOpts { literal: true, functions_full: true })).collect()
+    } else {
+        (1..=9999).map(|y| (y, DateOpts { literal: true, functions_full: !quick || y % 8 == (a.seed % 8) as i64 })).collect()
+    };
+    let all_years = years.len() == 9999;
+    let t0 = ctx.elapsed();
+    let dates = date_pass(&mut rng, ep, years, nthreads);
+    let valid_seen = dates.counters.get("valid_dates").copied().unwrap_or(0);
+    let lit_seen = dates.counters.get("literal_valid_dates").copied().unwrap_or(0);
+    top.merge(dates);
+    ctx.extra.insert("date_pass_wall_s".into(), json!(((ctx.elapsed() - t0) * 10.0).round() / 10.0));
+    ctx.exhaustive = Some(all_years && valid_seen == cal::TOTAL_DAYS && lit_seen == cal::TOTAL_DAYS);
+
+    // 4. times, timestamps
+    let t1 = ctx.elapsed();
+    let day_secs: i64 = if miri { 120 } else { 86_400 };
+    let mut trng = Rng::new(rng.next());
+    let mut s = 0;
+    while s < day_secs {
+        time_block(&mut top, &mut trng, s, (s + 3600).min(day_secs));
+        s += 3600;
+    }
+    invalid_times(&mut top);
+    if !miri {
+        // boundary days always; random days per seed. Literal parser on every second near 1970,
+        // on a stride far away in the quick tier (its cost grows with |year - 1970|).
+        let mut ts_days: Vec<i64> = vec![cal::MIN_DAY, cal::MAX_DAY, -1, 0, cal::days_from_civil(2000, 2, 29), cal::days_from_civil(1900, 2, 28)];
+        let nrand = if quick { 4 } else { 100 };
+        for i in 0..nrand {
+            ts_days.push(if i % 2 == 0 { rng.range(cal::MIN_DAY, cal::MAX_DAY) } else { rng.range(cal::days_from_civil(1600, 1, 1), cal::days_from_civil(2400, 12, 31)) });
+        }
+        let jobs: Vec<(i64, u64)> = ts_days.iter().map(|z| (*z, rng.next())).collect();
+        let mut handles = vec![];
+        for chunk in jobs.chunks(jobs.len().div_ceil(nthreads)) {
+            let chunk = chunk.to_vec();
+            handles.push(std::thread::spawn(move || {
+                let mut acc = Acc::default();
+                for (z, s) in chunk {
+                    let mut r = Rng::new(s);
+                    let far = (cal::civil_from_days(z).0 - 1970).abs() > 400;
+                    ts_day(&mut acc, &mut r, &ep, z, 1, if quick && far { 7 } else { 1 });
+                }
+                acc
+            }));
+        }
+        for h in handles {
+            match h.join() {
+                Ok(acc) => top.merge(acc),
+                Err(_) => top.viol("no_panic", "C41/harness/worker thread died", || json!({})),
+            }
+        }
+        let ts_day_texts: Vec<String> = ts_days
+            .iter()
+            .map(|z| {
+                let (y, m, d) = cal::civil_from_days(*z);
+                ymd_text(y, m, d)
+            })
+            .collect();
+        ctx.extra.insert("timestamp_days".into(), json!(ts_day_texts));
+    } else {
+        ts_day(&mut top, &mut trng, &ep, -1, 7200, 1);
+    }
+    invalid_timestamps(&mut top, &mut rng, if miri { 12 } else if quick { 3000 } else { 60_000 });
+    ctx.extra.insert("time_pass_wall_s".into(), json!(((ctx.elapsed() - t1) * 10.0).round() / 10.0));
+
+    // 2. SQL (+ rendering through the CLI when there is one)
+    if !miri {
+        let t2 = ctx.elapsed();
+        let dir = format!("/verif/scratch/c41-{}", std::process::id());
+        let _ = std::fs::remove_dir_all(&dir);
+        let _ = std::fs::create_dir_all(&dir);
+        let dbpath = format!("{}/db", dir);
+        let reduce = quick && ctx.elapsed() > 25.0;
+        let data = sql_part(&mut top, &mut rng, &ep, &dbpath, quick, miri, reduce);
+        ctx.extra.insert("sql_pass_wall_s".into(), json!(((ctx.elapsed() - t2) * 10.0).round() / 10.0));
+        match (find_cli(), data) {
+            (Some(cli), Some(data)) => {
+                let t3 = ctx.elapsed();
+                render_part(&mut top, &cli, &dbpath, &data);
+                ctx.extra.insert("render_checked_through".into(), json!(cli));
+                ctx.extra.insert("render_pass_wall_s".into(), json!(((ctx.elapsed() - t3) * 10.0).round() / 10.0));
+            }
+            _ => {
+                ctx.extra.insert("render_checked_through".into(), J::Null);
+                ctx.assumptions.push("canonical re-rendering NOT checked in this run: the only DATE/TIME/TIMESTAMP text renderer is turdb::cli::table (cargo feature `cli`), not enabled in the harness build, and no turdb CLI binary was found (TV_TURDB_CLI or /verif/target/cli/debug/turdb)".into());
+            }
+        }
+        let _ = std::fs::remove_dir_all(&dir);
+    }
+
+    top.samples.push(json!({"text": "2024-02-29", "parse_date": format!("{:?}", conv_date_literal("2024-02-29")), "DEFAULT": format!("{:?}", conv_defaults(&["2024-02-29".to_string()], RecType::Date)), "CAST": format!("{:?}", conv_predicate("2024-02-29", AstType::Date)), "TO_DAYS": format!("{:?}", fcall("TO_DAYS", &[tx("2024-02-29")])), "calendar_day": cal::days_from_civil(2024, 2, 29)}));
+    top.samples.push(json!({"text": "2023-02-29", "parse_date": format!("{:?}", conv_date_literal("2023-02-29")), "DEFAULT": format!("{:?}", conv_defaults(&["2023-02-29".to_string()], RecType::Date)), "CAST": format!("{:?}", conv_predicate("2023-02-29", AstType::Date))}));
+    top.samples.push(json!({"text": "23:59:59.999999", "parse_time": format!("{:?}", conv_time_literal("23:59:59.999999"))}));
+    top.samples.push(json!({"text": "0001-01-01T00:00:00", "parse_timestamp": format!("{:?}", conv_ts_literal("0001-01-01T00:00:00")), "calendar_micros": cal::MIN_DAY * 86_400_000_000}));
+    top.flush(&mut ctx);
+    ctx.assumptions.push("private helpers (date_to_days_since_epoch, days_from_ymd, date_to_days, days_to_date) are reached through their only public callers (parse_date, apply_defaults, TO_DAYS/DATEDIFF/DATE_ADD, FROM_DAYS), which add field splitting and range checks but no calendar arithmetic".into());
+    ctx.assumptions.push("week numbering (WEEK/WEEKOFYEAR/YEARWEEK), 24:00:00, second 60, two-field times and implicit text-to-date coercion in comparisons are undocumented and not judged".into());
+    ctx.finish()
 }
